@@ -88,6 +88,41 @@ pub fn c03_tree_oracle(t: &TextTree, text: &str) -> Outcome {
             }
         }
     }
+    // the same on a tokenizer and a result list that were used before (the way the CLI and the
+    // Python binding use them): analysis and every accessor must be as safe as on fresh objects
+    o.evaluations += 1;
+    let dict = &t.world.dict;
+    let r = catch(|| {
+        let mut tok = sudachi::analysis::stateful_tokenizer::StatefulTokenizer::new(dict.clone(), Mode::C);
+        let mut l = MorphemeList::empty(dict.clone());
+        for warm in ["東京都に行く", "京a"] {
+            tok.reset().push_str(warm);
+            if tok.do_tokenize().is_ok() {
+                let _ = l.collect_results(&mut tok);
+            }
+        }
+        tok.reset().push_str(text);
+        tok.do_tokenize().map_err(|e| classify_err(&e))?;
+        l.collect_results(&mut tok).map_err(|e| classify_err(&e))?;
+        let toks = toks_of(&l);
+        for i in 0..l.len() {
+            for sm in [Mode::A, Mode::B] {
+                let mut out = MorphemeList::empty(dict.clone());
+                l.get(i).split_into(sm, &mut out).map_err(|e| classify_err(&e))?;
+                let _ = toks_of(&out);
+            }
+        }
+        Ok::<_, AErr>(toks)
+    });
+    match r {
+        Err(p) => o.fail(Failure::panic(&format!("{} reused tokenizer and list {:?}", t.world.name(), text), &p)),
+        Ok(Err(e)) => o.fail(Failure::new("unexpected-error", format!("[{} reused tokenizer and list] {:?} -> {:?}", t.world.name(), text, e))),
+        Ok(Ok(toks)) => {
+            for f in partition_failures(text, &toks, 0, text.len(), &format!("{} reused tokenizer and list", t.world.name())) {
+                o.fail(trim(f));
+            }
+        }
+    }
     o
 }
 
